@@ -148,7 +148,11 @@ def apply_contract(I, c, f, args, kwargs):
         for fld, v in newvals.items():
             slf.fields[fld] = v
     if c.returns is not None:
-        return call_spec(I, c.returns, vals)
+        res = call_spec(I, c.returns, vals)
+        if c.ensures is not None and 'old' not in inspect.signature(c.ensures).parameters:
+            # both clauses are obligations of the callee's own proof
+            I.ex.assume(truthy(call_spec(I, c.ensures, dict(vals, result=res))))
+        return res
     if c.result_sort is None:
         return NONE
     res = fresh_of_sort(I, c.result_sort, 'res')
